@@ -54,6 +54,12 @@ func init() {
 	fr["github.com/fsnotify/fsnotify"] = rtPath + "/vfsnotify"
 	importSubst["rare/pkg/followreader"] = fr
 	importSubst["rare/pkg/extractor/batchers"] = fr
+	// expression packages: only the synchronisation primitives (their use of
+	// package time is calendar arithmetic, not waiting)
+	syncOnly := map[string]string{"sync": rtPath + "/vsync", "sync/atomic": rtPath + "/vatomic"}
+	for _, p := range []string{"rare/pkg/expressions", "rare/pkg/expressions/stdlib", "rare/pkg/expressions/funcfile", "rare/pkg/expressions/funclib"} {
+		importSubst[p] = syncOnly
+	}
 }
 
 type rewriter struct {
